@@ -358,6 +358,10 @@ def run(facts, rep, tier, ctx):
             _k8 += 1
             rep.ob("R01.8", o["fn"], o["key"].split("|")[2], o["ok"], o["detail"], o["loc"])
     rep.floor("join component-classification obligations (R01.8)", _k8, 4)
+    # ... and the adapters' listings rebuild every listed name with filename(): the part after the last '/', whatever other
+    # characters the name holds (a backslash is part of a name) — C06 R06.7
+    from . import c05 as _c05f
+    _c06.accessor_rules(facts, _c05f._P5(rep, "R01.8f"), _D)
     # the async port: its path type, memory/physical backends and adapters are separate copies of the same contracts
     wa = World(facts, True)
     rep.ob("R01.A", "async_vfs", "async world present", wa.present(), "", "")
